@@ -48,12 +48,18 @@ def parseKw (t : String) : Option (List (Name × Val)) :=
       | _, _ => none
     | _ => none
 
-def parseSpecs (t : String) : Option (List (Name × Option Bytes)) :=
+/-- spec strings travel as 3 bytes (big endian) per code point -/
+def decodeCps : Bytes → Option PyStr
+  | [] => some []
+  | a :: b :: c :: r => (decodeCps r).map fun x => (a.toNat * 65536 + b.toNat * 256 + c.toNat) :: x
+  | _ => none
+
+def parseSpecs (t : String) : Option (List (Name × Option PyStr)) :=
   if t = "-" then some []
   else (t.splitOn ";").mapM fun kv =>
     match kv.splitOn "=" with
     | [k] => k.toNat?.map fun k => (k, none)
-    | [k, v] => match k.toNat?, hexOr v with
+    | [k, v] => match k.toNat?, (hexOr v).bind decodeCps with
       | some k, some v => some (k, some v)
       | _, _ => none
     | _ => none
